@@ -415,7 +415,11 @@ def wiring(ctx):
                     'the loop over (handle, count) entries can stop early (return/break): completions listed after an unknown handle are dropped and their packets wait forever', p.loc(leaves[0]) if leaves else p.loc(lp))
     R.check(ok, rule, f'{H}.on_hci_number_of_completed_packets_event', 'each (handle, count) pair of the event is reported to the queue of that handle as (count, handle)',
             'completed-packet counts are not forwarded pairwise as (count, handle) to the queue', p.loc(ncp))
-    fl = [c for c in calls_in(dce) if call_attr(c) == 'flush' and 'packet_queue' in (dotted(c.func) or '')]
+    # the flushes live in the host's link teardown, which the event handler calls
+    tear = p.find(f'{H}.on_disconnection')
+    via = tear is not None and any(dotted(c.func) == 'self.on_disconnection' for c in calls_in(dce))
+    src_fn = tear if via else dce
+    fl = [c for c in calls_in(src_fn) if call_attr(c) == 'flush' and 'packet_queue' in (dotted(c.func) or '')]
     queues = sorted({(dotted(c.func) or '').split('.')[1] for c in fl})
     R.check({'acl_packet_queue', 'le_acl_packet_queue', 'iso_packet_queue'} <= set(queues), rule, f'{H}.on_hci_disconnection_complete_event | flushes queues',
             f'flushes {queues} for the disconnected handle', f'disconnection does not flush all three data queues (flushed: {queues})', p.loc(dce))
